@@ -1031,3 +1031,90 @@ pub fn gen_disc(rg: &mut Rg) -> EnumSpec {
     e.disc_opts = Some(DiscOpts::default());
     e
 }
+
+/// C19: restrict a spec to `core`-only payload types, plain ASCII literals and ordinary identifiers.
+pub fn coreify(e: &mut EnumSpec) {
+    for (vi, v) in e.variants.iter_mut().enumerate() {
+        let transparent_or_default = v.transparent() || v.is_default();
+        for f in v.fields.iter_mut() {
+            f.ty = match f.ty {
+                FieldTy::Str | FieldTy::VecU8 => {
+                    if transparent_or_default {
+                        FieldTy::CoreW
+                    } else {
+                        FieldTy::StaticStr
+                    }
+                }
+                FieldTy::BoxStr | FieldTy::RcStr | FieldTy::ArcStr | FieldTy::Wrap => FieldTy::CoreW,
+                FieldTy::Pay | FieldTy::Spy | FieldTy::NoDef => FieldTy::U8,
+                FieldTy::Inner => FieldTy::StaticStr,
+                t => t,
+            };
+            if f.default_with && f.ty.dw().is_none() {
+                f.default_with = false;
+            }
+            if f.ty == FieldTy::StaticStr && f.default_with {
+                f.default_with = false;
+            }
+        }
+        if v.default_with() && (v.fields.is_empty() || v.fields[0].ty.dw().is_none() || v.fields[0].ty == FieldTy::StaticStr) {
+            for g in v.groups.iter_mut() {
+                g.retain(|a| !matches!(a, VAttr::DefaultWith));
+            }
+            v.groups.retain(|g| !g.is_empty());
+        }
+        // a default variant captures through From<&str>: only the local W type can do that without alloc
+        if v.is_default() && !v.fields.is_empty() {
+            v.fields[0].ty = FieldTy::CoreW;
+        }
+        // ordinary identifiers
+        let clean: String = v.ident.chars().filter(|c| c.is_ascii_alphanumeric()).collect();
+        let mut id = String::new();
+        for (i, c) in clean.chars().enumerate() {
+            if i == 0 {
+                id.extend(c.to_uppercase());
+            } else {
+                id.push(c);
+            }
+        }
+        if id.is_empty() || id.chars().next().unwrap().is_ascii_digit() {
+            id = format!("V{}", id);
+        }
+        v.ident = format!("{}{}", id, vi);
+        // plain literals
+        for g in v.groups.iter_mut() {
+            for a in g.iter_mut() {
+                match a {
+                    VAttr::Serialize(s) | VAttr::Message(s) | VAttr::Detailed(s) => {
+                        *s = s.chars().filter(|c| c.is_ascii_alphanumeric() || *c == ' ' || *c == '-' || *c == '_').collect();
+                    }
+                    VAttr::ToString(s) => {
+                        *s = s.chars().filter(|c| c.is_ascii_alphanumeric() || " -_{}:<>^.?#+".contains(*c)).collect();
+                    }
+                    VAttr::Props(ps) => {
+                        for (_, pv) in ps.iter_mut() {
+                            if let PropVal::Str(s) = pv {
+                                *s = s.chars().filter(|c| c.is_ascii_alphanumeric() || *c == ' ').collect();
+                            }
+                        }
+                    }
+                    _ => {}
+                }
+            }
+        }
+        for d in v.docs.iter_mut() {
+            d.text = d.text.chars().filter(|c| c.is_ascii_alphanumeric() || *c == ' ').collect();
+            if d.style == DocStyle::Block && d.text.trim().is_empty() {
+                d.text = " doc ".into();
+            }
+        }
+    }
+    for g in e.groups.iter_mut() {
+        for a in g.iter_mut() {
+            if let EAttr::Prefix(s) = a {
+                *s = s.chars().filter(|c| c.is_ascii_alphanumeric() || *c == '_').collect();
+            }
+        }
+    }
+    repair_spellings(e);
+}
